@@ -21,9 +21,19 @@ pub struct StreamCase {
     pub max_distance: f32,
     /// permutations of the stream to compare (each a list of sort keys)
     pub perms: Vec<Vec<u32>>,
+    /// query ids and track ids come from one id space (a query may carry the id of a track)
+    #[serde(default)]
+    pub shared_ids: bool,
+}
+
+thread_local! {
+    static SHARED_IDS: std::cell::Cell<bool> = const { std::cell::Cell::new(false) };
 }
 
 fn qid(q: u8) -> u64 {
+    if SHARED_IDS.with(|s| s.get()) {
+        return 3 + q as u64;
+    }
     1000 + q as u64
 }
 fn tid(t: u8) -> u64 {
@@ -179,6 +189,13 @@ fn canon(res: &HashMap<u64, Vec<TopNVotingElt>>) -> BTreeMap<u64, Vec<(u64, i64)
 }
 
 pub fn check_stream(c: &StreamCase) -> CaseResult {
+    SHARED_IDS.with(|s| s.set(c.shared_ids));
+    let r = check_stream_inner(c);
+    SHARED_IDS.with(|s| s.set(false));
+    r
+}
+
+fn check_stream_inner(c: &StreamCase) -> CaseResult {
     let claims = reference(c);
     // ties: two claims of one query (top-N order) or two claimants of one track (best fit) with
     // weights closer than the tolerance make the outcome legitimately order dependent
@@ -350,8 +367,22 @@ pub fn stream_case() -> impl Strategy<Value = StreamCase> {
             1usize..=4,
             prop_oneof![Just(f32::MAX), 0.3f32..3.0, (0u8..12).prop_map(|k| k as f32 * 0.25)],
             proptest::collection::vec(proptest::collection::vec(any::<u32>(), 40), 1..4),
+            proptest::bool::weighted(0.25),
+            proptest::bool::weighted(0.15),
         )
-            .prop_map(|(items, topn, min_votes, max_distance, perms)| StreamCase { items, topn, min_votes, max_distance, perms })
+            .prop_map(|(mut items, topn, min_votes, max_distance, perms, shared_ids, negative)| {
+                if negative {
+                    // a similarity-like metric reported as negated distance: all values in (-1, 0]
+                    for it in items.iter_mut() {
+                        it.2 = it.2.map(|d| -(d / 3.0).min(0.999));
+                    }
+                }
+                if shared_ids {
+                    // a track is never compared with itself: no claim (q, t) with the same id on both sides
+                    items.retain(|it| 3 + it.0 as u64 != tid(it.1));
+                }
+                StreamCase { items, topn, min_votes, max_distance: if negative && max_distance != f32::MAX { -max_distance / 6.0 } else { max_distance }, perms, shared_ids }
+            })
     })
 }
 
@@ -377,7 +408,7 @@ fn small_stream_permutations(seed: u64, count: usize) -> Vec<StreamCase> {
             }
         }
         heap(n, &mut idx, &mut perms);
-        out.push(StreamCase { items, topn, min_votes, max_distance, perms });
+        out.push(StreamCase { items, topn, min_votes, max_distance, perms, shared_ids: k % 3 == 0 });
     }
     out
 }
